@@ -75,8 +75,65 @@ class CFG:
         ends = self._block(fn.body, [(self.entry, "n")])  # type: ignore[attr-defined]
         for p, lab in ends:
             self._edge(p, self.exit, lab)
+        self.threaded_edges = self._thread_none_tests()
         self._dom: dict[int, set[int]] | None = None
         self._pdom: dict[int, set[int]] | None = None
+
+    def _thread_none_tests(self) -> int:
+        """jump threading for the one correlation that needs no analysis: `x = None` (or `x = <literal / display / f-string>`)
+        followed - directly, or through nothing but break / continue / pass - by the test `x is None` / `x is not None`. The
+        edge into the test is redirected to the branch the assignment decides; the other branch was never feasible from there.
+        Only chains whose intermediate nodes have that single predecessor are touched. Returns the number of edges moved."""
+        def none_test(t: ast.AST | None) -> tuple[str, bool] | None:
+            neg = False
+            while isinstance(t, ast.UnaryOp) and isinstance(t.op, ast.Not):
+                t, neg = t.operand, not neg
+            if isinstance(t, ast.Compare) and len(t.ops) == 1 and isinstance(t.left, ast.Name) and isinstance(t.comparators[0], ast.Constant) and t.comparators[0].value is None and isinstance(t.ops[0], (ast.Is, ast.IsNot)):
+                return t.left.id, isinstance(t.ops[0], ast.IsNot) != neg  # (name, edge "t" means not None)
+            return None
+
+        moved = 0
+        for a in list(self.nodes):
+            if a.kind != "stmt" or not isinstance(a.ast, ast.Assign) or len(a.ast.targets) != 1 or not isinstance(a.ast.targets[0], ast.Name):
+                continue
+            v = a.ast.value
+            if isinstance(v, ast.Constant):
+                is_none = v.value is None
+            elif isinstance(v, (ast.JoinedStr, ast.Dict, ast.List, ast.Tuple, ast.Set)):
+                is_none = False
+            else:
+                continue
+            x = a.ast.targets[0].id
+            cur = a.id
+            ok = True
+            while ok:
+                normal = [(s_, lab) for s_, lab in self.succ[cur] if lab != "x"]
+                if len(normal) != 1:
+                    ok = False
+                    break
+                nxt, lab = normal[0]
+                nn = self.nodes[nxt]
+                if nn.kind == "test":
+                    tv = none_test(nn.ast)
+                    if tv is None or tv[0] != x:
+                        ok = False
+                        break
+                    take = "t" if tv[1] != is_none else "f"
+                    dests = [s_ for s_, l2 in self.succ[nxt] if l2 == take]
+                    if len(dests) != 1:
+                        ok = False
+                        break
+                    # move the edge cur -> test to cur -> decided branch
+                    self.succ[cur] = [(s_, l2) for s_, l2 in self.succ[cur] if not (s_ == nxt and l2 == lab)]
+                    self.pred[nxt] = [(p_, l2) for p_, l2 in self.pred[nxt] if not (p_ == cur and l2 == lab)]
+                    self._edge(cur, dests[0], lab)
+                    moved += 1
+                    break
+                if nn.kind == "stmt" and isinstance(nn.ast, (ast.Break, ast.Continue, ast.Pass)) and len([p_ for p_, l2 in self.pred[nxt] if l2 != "x"]) == 1:
+                    cur = nxt
+                    continue
+                ok = False
+        return moved
 
     # ---------------------------------------------------------------- build
     def _new(self, kind: str, a: ast.AST | None = None, owner: ast.AST | None = None) -> Node:
